@@ -112,7 +112,7 @@ def main(argv):
     faulthandler.dump_traceback_later(watchdog, exit=True)
     sh = Shard(prop, spec["_tier"], spec["_seed"], spec.get("_index", 0))
     mod = load_check(prop)
-    t0 = time.time()
+    t0 = time.perf_counter()
     try:
         if "_replay" in spec:
             mod.replay(sh, spec["_replay"])
@@ -121,7 +121,7 @@ def main(argv):
     except BaseException:
         # a crash of the harness itself is never a verdict about the code
         sh.inconclusive_because("harness error: " + traceback.format_exc()[-1800:])
-    sh.note("wall_s", time.time() - t0)
+    sh.note("wall_s", time.perf_counter() - t0)
     sh.dump(out_path)
     faulthandler.cancel_dump_traceback_later()
     return 0
